@@ -288,7 +288,7 @@ def join_byte_intervals(
             module_alignment = {}
         node = min(
             (b for b in interval.blocks if b in module_alignment),
-            key=lambda b: b.offset,
+            key=lambda b: (-module_alignment[b], b.offset),
             default=interval,
         )
         if node == interval:
